@@ -326,6 +326,12 @@ func WithTimeout(d time.Duration, f func() string) string {
 	case r := <-ch:
 		return r
 	case <-time.After(d):
+	}
+	// a loaded machine must not produce a false "hang": give the same call four times as long again
+	select {
+	case r := <-ch:
+		return r
+	case <-time.After(4 * d):
 		return "hang"
 	}
 }
